@@ -370,7 +370,11 @@ fn apply_string_avoid(mut s: String, avoid: &Avoid) -> String {
 const IDENT_KEYS: [&str; 14] =
     ["a", "b", "key", "value", "_x", "A1", "camelCase", "snake_case", "name", "path", "rule", "rules", "generator", "current"];
 const EXTRA_KEYWORD_KEYS: [&str; 6] = ["continue", "goto", "type", "export", "self", "typeof"];
-const AWKWARD_KEYS: [&str; 62] = [
+const AWKWARD_KEYS: [&str; 65] = [
+    // long enough for the generators' long-bracket form (>= 60 bytes without a line break)
+    "Are you sure you want to delete this item? This action cannot be undone.",
+    "https://example.org/some/rather/long/path/that/keeps/going?and=query&more=1",
+    "sixty bytes of text with [[brackets]] and ]] inside it, so that levels matter",
     "", "1", "0", "01", "1a", "9lives", "-1", "1.5", "1e5", "0x10", "a b", "a-b", "a.b", "a\"b", "a'b", "a\\b", "a\nb", "\n", "a\tb",
     "\r", "\r\n", "\u{e9}", "\u{65e5}\u{672c}", "\u{1F600}", "a\0b", "\0", "\u{7f}", "]]", "--", "[", "]=]", "$", "a=b", "#", " ",
     " lead", "trail ", "\u{2028}", "\u{feff}", ":", "a:b", "a: b", "a #b", "{", "}", ",", "~", "null", "yes", "no", "on", "Infinity",
